@@ -110,9 +110,20 @@ def build(ctx, lean_targets):
 
 def theorem_names(module_path):
     src = strip_lean_comments(open(module_path).read())
-    ns = re.search(r"^namespace\s+(\S+)", src, flags=re.M)
-    prefix = ns.group(1) + "." if ns else ""
-    return [prefix + m for m in re.findall(r"^theorem\s+([A-Za-z0-9_'.]+)", src, flags=re.M)]
+    names, stack = [], []
+    for line in src.splitlines():
+        m = re.match(r"^namespace\s+(\S+)", line)
+        if m:
+            stack.append(m.group(1))
+            continue
+        m = re.match(r"^end\s+(\S+)", line)
+        if m and stack and stack[-1] == m.group(1):
+            stack.pop()
+            continue
+        m = re.match(r"^theorem\s+([A-Za-z0-9_'.]+)", line)
+        if m:
+            names.append(".".join(stack + [m.group(1)]))
+    return names
 
 
 def proof_audit(ctx, module):
